@@ -521,8 +521,11 @@ package controller
 // lockedAt(g, c): the cool-down of the last accepted scale-up has not elapsed at clock reading c
 //@ spec lockedAt(g *NodeGroupState, c int) bool = sat64(c - g.scaleUpLock.lockTime) < g.scaleUpLock.minimumLockDuration
 
+// scaleUpD: the percent-decrease formula of calcScaleUpDelta (n nodes, utilisations pc/pm, threshold T)
+//@ spec scaleUpD(n int, pc real, pm real, T int) int = trunc(max(ceil(real(n) * ((pc - real(T)) / real(T))), ceil(real(n) * ((pm - real(T)) / real(T)))))
 //@ func (*Controller).scaleNodeGroup(c, nodegroup, nodeGroup) (delta, err)
 //@   requires c != nil && c.Client != nil && c.cloudProvider != nil && groupInv(nodeGroup)
+//@   requires [C05,C06] 0 <= nodeGroup.Opts.SlowNodeRemovalRate && nodeGroup.Opts.SlowNodeRemovalRate <= nodeGroup.Opts.FastNodeRemovalRate && 0 < nodeGroup.Opts.TaintLowerCapacityThresholdPercent && nodeGroup.Opts.TaintLowerCapacityThresholdPercent < nodeGroup.Opts.TaintUpperCapacityThresholdPercent && nodeGroup.Opts.TaintUpperCapacityThresholdPercent < nodeGroup.Opts.ScaleUpThresholdPercent
 //@   modifies Jlen, Jkind, Jname, Jnode, Jok, Jesc, Jnum, Jerr, clock, nTaintOK, nUntaintOK, getSeen, LNb, LNo, LNl, LNby, LPb, LPo, LPl, nScans
 //@   ensures nScans == old(nScans) + 1
 //@   ensures forall g2 *NodeGroupState :: allocated(g2) && g2 != nodeGroup && old(groupInv(g2)) ==> groupInv(g2)
@@ -536,6 +539,18 @@ package controller
 //@   ensures [C04] forall k :: old(Jlen) <= k && k < Jlen && Jkind[k] == C_INCREASE ==> Jname[k] == gid(nodeGroup) && Jnum[k] >= 1 && tgt(gid(nodeGroup)) + Jnum[k] <= min(nodeGroup.Opts.MaxNodes, cmax(gid(nodeGroup)))
 //@   ensures [C09] !dry(c, nodeGroup) ==> (forall k :: old(Jlen) <= k && k < Jlen && (Jkind[k] == K_UPDATE || Jkind[k] == K_DELETE || Jkind[k] == C_DELNODE) ==> LNby[Jname[k]] != nil && !unsched(LNby[Jname[k]]))
 //@   ensures [C01,C10] forall k :: old(Jlen) <= k && k < Jlen && (Jkind[k] == K_DELETE || Jkind[k] == C_DELNODE) ==> LNby[Jname[k]] != nil && delOK(LNby[Jname[k]], nodeGroup, clock)
+// C06: which action a scan takes, and with what amount, follows the utilisation bands. Stated where the
+// decision is consumed (the scan's own locals are in scope at these call sites): maxPercent is max(cpu%, mem%);
+// a taint pass is entered only from the two lower bands, with the band's rate; the do-nothing branch only
+// when no band asks for anything; a scale-up only with a delta >= 1, which is 1 when only an exception
+// (scale_on_starve, max_node_age) asked for it. C05: above the threshold the delta is the computed one.
+//@   assert @ScaleDown#1 [C06] maxPercent == max(cpuPercent, memPercent)
+//@   assert @ScaleDown#1 [C06] scaleOptions.nodesDelta == 0 - nodesDelta
+//@   assert @ScaleDown#1 [C06] nodesDelta < 0
+//@   assert @ScaleDown#1 [C06] (maxPercent < real(nodeGroup.Opts.TaintLowerCapacityThresholdPercent) && scaleOptions.nodesDelta == nodeGroup.Opts.FastNodeRemovalRate) || (maxPercent >= real(nodeGroup.Opts.TaintLowerCapacityThresholdPercent) && maxPercent < real(nodeGroup.Opts.TaintUpperCapacityThresholdPercent) && scaleOptions.nodesDelta == nodeGroup.Opts.SlowNodeRemovalRate)
+//@   assert @ScaleUp#2 [C06] maxPercent == max(cpuPercent, memPercent) && scaleOptions.nodesDelta == nodesDelta && nodesDelta >= 1 && (maxPercent <= real(nodeGroup.Opts.ScaleUpThresholdPercent) ==> nodesDelta == 1)
+//@   assert @ScaleUp#2 [C05] maxPercent > real(nodeGroup.Opts.ScaleUpThresholdPercent) && cpuPercent != MAXF && memPercent != MAXF ==> scaleUpD(len(untaintedNodes), cpuPercent, memPercent, nodeGroup.Opts.ScaleUpThresholdPercent) <= nodesDelta && nodesDelta <= max(1, scaleUpD(len(untaintedNodes), cpuPercent, memPercent, nodeGroup.Opts.ScaleUpThresholdPercent))
+//@   assert @TryRemoveTaintedNodes#1 [C06] maxPercent == max(cpuPercent, memPercent) && nodesDelta == 0 && (maxPercent < real(nodeGroup.Opts.TaintLowerCapacityThresholdPercent) ==> nodeGroup.Opts.FastNodeRemovalRate == 0) && (maxPercent >= real(nodeGroup.Opts.TaintLowerCapacityThresholdPercent) && maxPercent < real(nodeGroup.Opts.TaintUpperCapacityThresholdPercent) ==> nodeGroup.Opts.SlowNodeRemovalRate == 0)
 //@   ensures [C01] Jlen > old(Jlen) ==> (forall i, j :: 0 <= i && i < len(k8s.listedNodes()) && 0 <= j && j < len(k8s.listedPods()) && k8s.nodeEmptyIn(k8s.listedNodes()[i], nodeGroup.NodeInfoMap) && k8s.listedPods()[j].Spec.NodeName == k8s.listedNodes()[i].Name ==> k8s.isDS(k8s.listedPods()[j]))
 
 // ---------------------------------------------------------------- RunOnce: one scan of all groups
@@ -606,3 +621,9 @@ package controller
 //@ func NewNodeLabelFilterFunc$1(node) (r)
 //@   requires node != nil
 //@   ensures [C14] r <==> (has(node.Labels, labelKey) && node.Labels[labelKey] == labelValue)
+
+// The documented scale_on_starve exception: enabled, some pending pod's largest request does not fit in the
+// largest free slot, and the group is below max_nodes.
+//@ func (*Controller).isScaleOnStarve(c, nodeGroup, podRequests, nodeCapacity, untaintedNodes) (r)
+//@   requires nodeGroup != nil
+//@   ensures [C06] r <==> (nodeGroup.Opts.ScaleOnStarve && ((!(podRequests.LargestPendingCPU.MilliCPU == 0 && podRequests.LargestPendingCPU.Memory == 0) && podRequests.LargestPendingCPU.MilliCPU > nodeCapacity.LargestAvailableCPU.MilliCPU) || (!(podRequests.LargestPendingMemory.MilliCPU == 0 && podRequests.LargestPendingMemory.Memory == 0) && podRequests.LargestPendingMemory.Memory > nodeCapacity.LargestAvailableMemory.Memory)) && len(untaintedNodes) < nodeGroup.Opts.MaxNodes)
